@@ -6,9 +6,10 @@
    a freed descriptor is [None]; dereferencing a pointer to a freed or never
    allocated descriptor is the error [EUAF].  Loops that follow p_next take
    fuel (number of descriptors + 1); running out of fuel ([EFuel]) stands for a
-   walk that never ends (cyclic list).  A failing ABTI_ASSERT is [EAssert];
-   [EOverflow] is the signed overflow of "newrank + 1" in
-   xstream_update_max_xstreams.
+   walk that never ends (cyclic list).  A failing ABTI_ASSERT is [EAssert].
+   ([EOverflow] was the signed overflow of "newrank + 1" in
+   xstream_update_max_xstreams for rank INT_MAX; fixed in /repo, commit a3733c8,
+   the model follows the fixed code.)
    Everything under xstream_list_lock is one function here (one locked step).
    Only model code in this file; proofs are in DS/RankListProofs.v. *)
 From Coq Require Import List ZArith Bool.
@@ -140,8 +141,15 @@ Definition remove_xstream_list (s : rl) (x : nat) : res rl :=
   | None => Ok s1
   end.
 
-(* stream.c: xstream_update_max_xstreams (the warning text is not modelled) *)
+(* stream.c: xstream_update_max_xstreams (the warning text is not modelled);
+   max_xstreams = (newrank == INT_MAX) ? INT_MAX : newrank + 1 *)
 Definition update_max (s : rl) (newrank : Z) : res rl :=
+  if newrank >=? maxx s then
+    Ok (set_maxx s (if newrank =? INT_MAX then INT_MAX else newrank + 1))
+  else Ok s.
+
+(* the code before commit a3733c8, kept for the record (C17_rank_int_max_refuted_old) *)
+Definition update_max_buggy (s : rl) (newrank : Z) : res rl :=
   if newrank >=? maxx s then
     if newrank + 1 >? INT_MAX then Bad EOverflow else Ok (set_maxx s (newrank + 1))
   else Ok s.
@@ -315,6 +323,7 @@ Fixpoint x_run (s : rl) (ops : list xop)
 Definition ABT_SUCCESS : Z := 0.
 Definition ERR_INV_XSTREAM : Z := 4.
 Definition ERR_INV_XSTREAM_RANK : Z := 5.
+Definition ERR_XSTREAM_STATE : Z := 30.
 
 Inductive aop :=
 | ACreate                         (* ABT_xstream_create(ABT_SCHED_NULL, &x) *)
@@ -327,7 +336,8 @@ Inductive aop :=
 | AGetRank (i : nat)
 | AGetNum
 | AGetState (i : nat)
-| AWork (i : nat).                (* a ULT pushed to x_i's main pool reports ABT_xstream_self_rank *)
+| AWork (i : nat)                 (* a ULT pushed to x_i's main pool reports ABT_xstream_self_rank *)
+| ASetMainSched (i : nat).        (* ABT_xstream_set_main_sched(x_i, ABT_SCHED_NULL) from the primary ULT *)
 
 (* xstream_create(..., rank, ...) + the checks of the two public creators;
    every attempt consumes one descriptor index (malloc, then free on failure) *)
@@ -412,6 +422,15 @@ Definition api_step (s : rl) (o : aop) : res (rl * list Z) :=
     match live s i with
     | None => Ok (s, [-1])
     | Some n => if n_running n then Ok (s, [n_rank n]) else Ok (s, [-2])
+    end
+  | ASetMainSched i =>
+    (* allowed on a terminated stream and on the caller's own stream (here: the
+       primary); ranks, list and stream states are not touched *)
+    match live s i with
+    | None => Ok (s, [ERR_INV_XSTREAM])
+    | Some n =>
+      if n_running n && negb (n_primary n) then Ok (s, [ERR_XSTREAM_STATE])
+      else Ok (s, [ABT_SUCCESS])
     end
   end.
 
